@@ -570,13 +570,14 @@ fn execute_inner(h: &History, want: &str, rep: &mut Report, start: Option<ExecSt
     let mut n_bytes = 0u64;
     let mut n_msgs = 0u64;
     let mut since_change_r = 0u8; // messages since the rising latch was last set (class only)
+    let mut notes_undefined = false;
     let mut observed_gate_mode = start_observed;
     let mut gate_seen = start_gate; // gate() as read after the previous byte
     for (i, op) in h.ops.iter().enumerate() {
         match op {
             Op::Byte(b) => {
                 let cls = (dec.state_class(), byte_class(*b, rf.channel));
-                if !observed_gate_mode && want != "C05" && want != "C17" && rf.held.len() >= 32 {
+                if !observed_gate_mode && !notes_undefined && want == "C04" && rf.held.len() >= 32 {
                     // C04 / C06 / C18 are stated up to 32 outstanding note-ons: a byte that would complete the 33rd
                     // is not fed at all (whatever it does, panicking included, is C05's and C17's business)
                     if let Some(msg) = dec.clone().feed(*b) {
@@ -597,12 +598,21 @@ fn execute_inner(h: &History, want: &str, rep: &mut Report, start: Option<ExecSt
                         if rf.overflowed && !observed_gate_mode {
                             // a 33rd outstanding note-on: outside the stated range of C04 (and of the list-based reference)
                             rep.count("midi.reference_list_left_at_33rd_note_on", 1);
-                            if want != "C05" && want != "C17" {
+                            if want == "C04" {
                                 break;
+                            }
+                            if want == "C06" || want == "C18" || want == "ALL" {
+                                // the controller outputs stay defined whatever the note buffer does: from here on only
+                                // they (and the pitch bend) are compared
+                                notes_undefined = true;
+                                rf.overflowed = false;
+                                rep.count("midi.controllers_only_after_33rd_note_on", 1);
                             }
                             // C05 is stated in terms of gate() itself and has no such limit: from here on the edge
                             // latches are judged against the gate transitions the implementation itself reports
-                            observed_gate_mode = true;
+                            if want == "C05" || want == "C17" {
+                                observed_gate_mode = true;
+                            }
                         }
                         if observed_gate_mode {
                             let gate_after = call!(m.gate(), i);
@@ -634,7 +644,20 @@ fn execute_inner(h: &History, want: &str, rep: &mut Report, start: Option<ExecSt
                 if observed_gate_mode {
                     continue;
                 }
-                if let Some((name, group, g, w)) = diff(&got, &rf.out) {
+                let d = diff(&got, &rf.out);
+                let d = if notes_undefined {
+                    // re-synchronise the note outputs of the reference with what is observed, compare controllers only
+                    rf.out.gate = got.gate;
+                    rf.out.note = got.note;
+                    rf.out.vel = got.vel;
+                    match d {
+                        Some((_, 'n', _, _)) => diff(&got, &rf.out),
+                        other => other,
+                    }
+                } else {
+                    d
+                };
+                if let Some((name, group, g, w)) = d {
                     let (prop, ok) = match want {
                         "C04" => ("C04", group == 'n'),
                         "C18" => ("C18", group == 'c'),
@@ -658,20 +681,26 @@ fn execute_inner(h: &History, want: &str, rep: &mut Report, start: Option<ExecSt
                 let wantv = if rising { std::mem::replace(&mut rf.rising, false) } else { std::mem::replace(&mut rf.falling, false) };
                 polls[rising as usize][wantv as usize] += 1;
                 rep.class(("poll", rising, wantv, rf.out.gate, rf.retrigger, since_change_r.min(3)));
-                if want == "C05" || want == "ALL" {
+                if notes_undefined {
+                    // latches follow the notes: not judged any more in this history
+                    if rising { rf.rising = false } else { rf.falling = false }
+                    continue;
+                }
+                if want == "C05" || want == "ALL" || want == "C06" {
+                    let pprop = if want == "C06" { "C06" } else { "C05" };
                     let gate = call!(m.gate(), i);
                     if got != wantv {
                         rep.evaluations += n_eval;
                         let name = if rising { "rising_gate" } else { "falling_gate" };
-                        return Some(mk("C05", name, format!("{}() returned {} but the reference latch is {} (gate {}, held {:?}, retrigger {})", name, got, wantv, rf.out.gate, rf.held, rf.retrigger), i));
+                        return Some(mk(pprop, name, format!("{}() returned {} but the reference latch is {} (gate {}, held {:?}, retrigger {})", name, got, wantv, rf.out.gate, rf.held, rf.retrigger), i));
                     }
                     if got && rising && !gate {
                         rep.evaluations += n_eval;
-                        return Some(mk("C05", "rising-implies-gate", "rising_gate() true while gate() is false".into(), i));
+                        return Some(mk(pprop, "rising-implies-gate", "rising_gate() true while gate() is false".into(), i));
                     }
                     if got && !rising && gate {
                         rep.evaluations += n_eval;
-                        return Some(mk("C05", "falling-implies-not-gate", "falling_gate() true while gate() is true".into(), i));
+                        return Some(mk(pprop, "falling-implies-not-gate", "falling_gate() true while gate() is true".into(), i));
                     }
                 } else if got != wantv {
                     rep.count("midi.history_abandoned_other_property", 1);
@@ -1206,6 +1235,10 @@ pub fn gen_bytes(r: &mut Rng, n: usize) -> History {
             }
         };
         ops.push(Op::Byte(b));
+        // the edge getters are outputs too: polled now and then, at positions unrelated to message boundaries
+        if r.chance(0.03) {
+            ops.push(if r.chance(0.5) { Op::PollRising } else { Op::PollFalling });
+        }
     }
     History { channel_arg, ops }
 }
@@ -1263,8 +1296,13 @@ pub fn gen_catalogue(r: &mut Rng, ch: u8, which: usize, split: Option<usize>) ->
             _ => {}
         }
         ops.push(Op::Byte(*b));
+        if split.is_none() && r.chance(0.1) {
+            ops.push(if r.chance(0.5) { Op::PollRising } else { Op::PollFalling });
+        }
     }
     ops.push(Op::Byte(0xF8));
+    ops.push(Op::PollFalling);
+    ops.push(Op::PollRising);
     History { channel_arg: ch, ops }
 }
 
@@ -1594,6 +1632,15 @@ pub fn run(ctx: &Ctx, prop: &str) -> Report {
                     let h = if j % 3 == 2 {
                         let c = if r.chance(0.1) { 99 } else { r.below(16) as u8 };
                         gen_rpn_nrpn(&mut r, c)
+                    } else if j % 7 == 3 {
+                        // controllers while the note buffer fills up and overruns (they must not care)
+                        let mut h = if r.chance(0.5) { gen_notes_x(&mut r, 200, 0.0, false, true) } else { gen_full_buffer(&mut r, false) };
+                        let ch = h.channel_arg.min(15);
+                        let mut pre = Emit::new();
+                        preset_controllers(&mut pre, ch, &mut r);
+                        pre.ops.extend(h.ops);
+                        h.ops = pre.ops;
+                        h
                     } else {
                         gen_controllers_and_notes(&mut r, if small { 100 } else { 400 })
                     };
